@@ -321,7 +321,7 @@ def run(prop, tier):
         b = vlib.run_tlc("MC_Builtins", "MC_Builtins.cfg", wd, workers=1, timeout=600)
         if not b.ok:
             raise vlib.ToolError("TLC reports %s on MC_Builtins.cfg (specification error):\n%s" % (b.violated, b.output[-2000:]))
-        cases = b.marked["REPLAY"]
+        cases = [c for c in b.marked["REPLAY"] if c["kind"] in ("loc", "status")]   # (the authentication / discovery cases: bin/check extras)
         binp, boutp = os.path.join(wd, "builtins.ndjson"), os.path.join(wd, "builtins_obs.ndjson")
         vlib.write_ndjson(binp, cases)
         vlib.run_bin(hx, ["builtins", "--in", binp, "--out", boutp], timeout=600)
